@@ -23,11 +23,13 @@ class Env:
     pass
 
 
-def build(sc, budgets=None):
+def build(sc, budgets=None, sim=None, net=None):
+    """sim/net given: a further world (another device at another address) in the same simulation"""
     env = Env()
-    sim = Sim(sc["seed"], budgets=budgets or sc.get("budgets"))
-    sim.keep_events = sc.get("_keep_events", False)
-    net = SimNet(sim, sc.get("net", {}), sc.get("faults", []))
+    if sim is None:
+        sim = Sim(sc["seed"], budgets=budgets or sc.get("budgets"))
+        sim.keep_events = sc.get("_keep_events", False)
+        net = SimNet(sim, sc.get("net", {}), sc.get("faults", []))
     w = sc["world"]
     world = World(sim, net, w.get("choices", {}))
     ip = w.get("ip", "10.0.0.1")
@@ -116,7 +118,11 @@ def advance_sequence(drv, n):
     seq = getattr(drv, "_sequence", None)
     v = None
     if seq is None or not hasattr(seq, "__next__"):
-        return None
+        # renamed: the one iterator the driver instance holds, if there is exactly one
+        its = [x for x in vars(drv).values() if hasattr(x, "__next__") and not hasattr(x, "recv") and not hasattr(x, "read")]
+        if len(its) != 1:
+            return None
+        seq = its[0]
     for _ in range(n):
         v = next(seq)
     return v
